@@ -366,6 +366,26 @@ func simWorld(rc *kernel.RunCtx) {
 	for i, n := 0, t.Range(0, 4, "norphans"); i < n; i++ {
 		dir := dirs[t.Choose(len(dirs), "dir")]
 		rel := filepath.Join(dir, fmt.Sprintf("orphan%d_templ.go", i))
+		if t.Chance(1, 3, "orphan-named-after-a-template") {
+			// what is left when page2.templ is deleted next to page.templ: a name that begins like
+			// that of a template that is still there (and sorts right after it)
+			var stems []string
+			for r := range files {
+				if strings.HasSuffix(r, ".templ") {
+					stems = append(stems, strings.TrimSuffix(r, ".templ"))
+				}
+			}
+			sort.Strings(stems)
+			if len(stems) > 0 {
+				stem := stems[t.Choose(len(stems), "which-stem")] + []string{"2", "_old", "s", "_templ"}[t.Choose(4, "stem-suffix")]
+				if _, taken := files[stem+".templ"]; !taken {
+					if _, taken := files[stem+"_templ.go"]; !taken {
+						rel = stem + "_templ.go"
+						w.k.Count("probe_orphan_named_after_a_template", 1)
+					}
+				}
+			}
+		}
 		put(rel, "package orphan\n", base)
 	}
 	for i, n := 0, t.Range(0, 4, "nother"); i < n; i++ {
